@@ -44,28 +44,35 @@ var fullStackReal = []string{
 
 var props = []*prop{
 	{
-		ID: "C07", Binary: "simcore", Quick: 1500, Thorough: 40000, RunWall: 180 * time.Second,
+		ID: "C07", Binary: "simcore", Quick: 3000, Thorough: 60000, RunWall: 180 * time.Second,
 		Variants: []variant{{Scenario: "c07", Weight: 1}},
 		Real:     []string{"tars/transport: TarsServer + tcpHandler receive loop and TarsClient receive loop (instrumented)", "tars/protocol.TarsRequest / TarsProtocol.ParsePackage and SetMaxPackageLength (real)", "tars/util/gpool (server worker pool in some runs)"},
 		Stub:     append([]string{netStub, "protocol layer above the framing -> recording ServerProtocol.Invoke / ClientProtocol.Recv", "peers -> scripted raw writers"}, commonStub...),
 		Rule:     "one case = one simulated run: 1-3 connections into a real TarsServer and 1-2 real TarsClients, each fed a tape-drawn sequence of 1-12 frames (lengths 4, 5, small, around 4096 and 8192, max-1, max) optionally followed by an illegal length prefix (0-3, max+1, huge) and further frames; the stream is written in tape-drawn chunks (single bytes, cuts inside the prefix, large chunks, pauses) and read in tape-drawn fragments; maximum package length 64/1000/4096/10MiB, server pool 0/1/3; distinct = distinct (event-log hash, switch trace hash); non-trivial = at least one preemption, stall or fired fault",
 	},
 	{
-		ID: "C08", Binary: "simcore", Quick: 1500, Thorough: 40000, RunWall: 120 * time.Second,
+		ID: "C08", Binary: "simcore", Quick: 6000, Thorough: 120000, RunWall: 120 * time.Second,
 		Variants: []variant{{Scenario: "c08", Weight: 1}},
 		Real:     fullStackReal,
 		Stub:     append([]string{netStub, "server -> scripted peer speaking the wire protocol through an independent reference codec (verifsim/refcodec)"}, commonStub...),
 		Rule:     "one case = one simulated run: 1-8 concurrent callers x 1-5 calls with unique payloads through one real ServantProxy; the scripted server answers each request by a tape-drawn plan (immediate, delayed, duplicated, stray unused id first, id-0 push frame first, around the deadline, late, replay after completion), reads fragmented and deliveries delayed per tape, id counter preset near MaxInt32/-1 in some runs; distinct = distinct (event-log hash, switch trace hash); non-trivial = at least one preemption, stall or fired fault",
 	},
 	{
-		ID: "C09", Binary: "simcore", Quick: 1600, Thorough: 40000, RunWall: 120 * time.Second,
+		ID: "C09", Binary: "simcore", Quick: 6000, Thorough: 120000, RunWall: 120 * time.Second,
 		Variants: []variant{{Scenario: "c09", Params: map[string]string{"faults": "on"}, Weight: 3}, {Scenario: "c09", Params: map[string]string{"faults": "off", "stalls": "off"}, Weight: 1}},
 		Real:     fullStackReal,
 		Stub:     append([]string{netStub, "server -> scripted peer (reference codec) with tape-drawn misbehaviour"}, commonStub...),
 		Rule:     "one case = one simulated run: 1-6 concurrent callers x 1-4 calls through one real ServantProxy with tape-drawn proxy/per-call/context deadlines, dial/write/read time-outs and send-queue length; the peer's behaviour is drawn per connection (close on accept, never read, silent, garbage) and per request (immediate, never, around the deadline, late, close after request, half a response then close, reset, garbage, other id first), plus address faults (refused, black-holed, refuse-then-heal, crash and restart); a fault-free variant (every call must succeed) runs separately; distinct = distinct (event-log hash, switch trace hash); non-trivial = at least one preemption, stall or fired fault",
 	},
 	{
-		ID: "C12", Binary: "simcore", Quick: 1600, Thorough: 40000, RunWall: 180 * time.Second,
+		ID: "C11", Binary: "simcore", Quick: 10000, Thorough: 200000, RunWall: 180 * time.Second,
+		Variants: []variant{{Scenario: "c11", Weight: 1}},
+		Real:     fullStackReal,
+		Stub:     append([]string{netStub, "server -> scripted peer (reference codec) that answers every request it reads and closes connections by plan"}, commonStub...),
+		Rule:     "one case = one simulated run: 1-2 callers x 2-8 sequential calls through one real proxy with tape-drawn gaps (0ms-2.5s, straddling the sender's 1s poll); per accepted connection the scripted server keeps it, closes it after response k, closes it when idle for 50ms-2s, or sends the reconnect notification and closes after a drawn gap; crash+restart in some runs; distinct = distinct (event-log hash, switch trace hash); non-trivial = at least one preemption or fired fault",
+	},
+	{
+		ID: "C12", Binary: "simcore", Quick: 5000, Thorough: 100000, RunWall: 180 * time.Second,
 		Variants: []variant{{Scenario: "c12", Params: map[string]string{"pool": "0"}, Weight: 1}, {Scenario: "c12", Params: map[string]string{"pool": "n"}, Weight: 1}},
 		Real:     []string{"tars/transport: TarsServer.Shutdown, tcpHandler accept loop / receive loops / CloseIdles (instrumented)", "tars.Protocol.Invoke and GetCloseMsg (instrumented)", "tars/util/gpool worker pool (instrumented)"},
 		Stub:     append([]string{netStub, "clients -> scripted raw clients (reference codec) that pipeline requests and read until the server closes", "servant -> sleeping echo dispatcher"}, commonStub...),
